@@ -23,6 +23,9 @@ fn acts() -> Vec<Act> {
         vec!["XADD", "s", MAXID1, "f", "v"], vec!["XADD", "s", MAXID, "f", "v"],
         vec!["XADD", "s", "abc", "f", "v"], vec!["XADD", "s", "1-1", "f"], vec!["XADD", "s", "*"],
         vec!["XDEL", "s", "@FIRST"], vec!["XDEL", "s", "@LAST"], vec!["XDEL", "s", "@MID"], vec!["XDEL", "s", "7-7"], vec!["XDEL", "s", "@FIRST", "@LAST"], vec!["XDEL", "s", "x"],
+        // several ids of which the largest lies above the newest entry, the same id twice, ids in descending order
+        // (a seeded shortcut ended the whole command at the first id above the top)
+        vec!["XDEL", "s", "@FIRST", "@MID", "18446744073709551615-18446744073709551615"], vec!["XDEL", "s", "18446744073709551615-0", "@LAST", "@FIRST"], vec!["XDEL", "s", "@MID", "@MID"],
         vec!["XTRIM", "s", "MAXLEN", "0"], vec!["XTRIM", "s", "MAXLEN", "1"], vec!["XTRIM", "s", "MAXLEN", "2"], vec!["XTRIM", "s", "MAXLEN", "10"],
         vec!["XTRIM", "s", "MAXLEN", "=", "1"], vec!["XTRIM", "s", "MAXLEN", "~", "1"], vec!["XTRIM", "s", "MAXLEN", "x"],
         vec!["XADD", "s2", "1-1", "a", "b"], vec!["SET", "s", "str"], vec!["DEL", "s"],
